@@ -192,9 +192,32 @@ func runC17(c *Ctx) {
 			})
 			if ok {
 				for _, r := range fi.Returns() {
-					if !fi.Dominates(st, r) {
-						ok, why = false, "a return at "+c.Pos(r)+" is reachable without the update"
+					if fi.Dominates(st, r) {
+						continue
 					}
+					// a return on the len(buf) == 0 edge queues nothing and counts nothing
+					if fi.HasFact(r, func(ft ir.Fact) bool {
+						e, zero, isZ := ir.ZeroTest(ft.Cond, ft.Truth)
+						if !isZ || !zero {
+							return false
+						}
+						x, isLen := ir.IsLenOf(ir.Resolve(e))
+						return isLen && pb != nil && ir.Resolve(x) == ssa.Value(pb)
+					}) {
+						vis, _ := fi.Reach([]ssa.Instruction{fn.Blocks[0].Instrs[0]}, func(in ssa.Instruction) bool { return in == ssa.Instruction(r) })
+						queued := false
+						for in := range vis {
+							if s2, isSt := in.(*ssa.Store); isSt {
+								if fa, isFA := s2.Addr.(*ssa.FieldAddr); isFA && c.P.FieldKey(fa) == fConnWriteList && fi.CanReach(in, r) {
+									queued = true
+								}
+							}
+						}
+						if !queued {
+							continue
+						}
+					}
+					ok, why = false, "a return at "+c.Pos(r)+" is reachable without the update"
 				}
 				if fi.InLoop(st) {
 					ok, why = false, "the update is inside a loop"
